@@ -267,7 +267,7 @@ pub fn chain_strategy(max: usize) -> BoxedStrategy<E> {
 }
 
 pub fn run(ctx: &Ctx) -> Report {
-    let cases = ctx.tier.pick(4_000u32, 60_000u32);
+    let cases = ctx.tier.pick(32_000u32, 320_000u32);
     let total = run_shards(16, |shard| {
         let mut st = Stats::new();
         let strat = prop_oneof![3 => chain_strategy(40), 1 => chain_strategy(300), 2 => (any::<bool>()).prop_flat_map(|f| gen::expr_over(resource_leaf(f), 6, 40, true))];
